@@ -8,6 +8,7 @@ import (
 	"bytes"
 	"fmt"
 	"os"
+	"runtime"
 	"time"
 
 	fr "github.com/brocaar/lorawan/applayer/fragmentation"
@@ -142,6 +143,20 @@ func encodeObs(data []byte, size, red int) (string, [][]byte, string) {
 	return cq.Ok(rowsTerm(out)), out, ""
 }
 
+// encodeRaw is the call alone (own recover, no harness state): used by the replays, also concurrently
+func encodeRaw(data []byte, size, red int) (o string) {
+	defer func() {
+		if recover() != nil {
+			o = cq.Panic
+		}
+	}()
+	out, err := fr.Encode(data, size, red)
+	if err != nil {
+		return cq.Err
+	}
+	return cq.Ok(rowsTerm(out))
+}
+
 func hexShort(b []byte) string {
 	if len(b) > 24 {
 		return fmt.Sprintf("%x..(%d bytes)", b[:24], len(b))
@@ -155,10 +170,34 @@ func encodeCase(s *cases.Set, data []byte, size, red int, kind, dataName string)
 	if note != "" {
 		rp["observed"] = note
 	}
+	key := fmt.Sprintf("encode:len=%d:size=%d:red=%d:data=%s", len(data), size, red, dataName)
 	s.Add(cases.Case{Term: fmt.Sprintf("CEncode %s %s %s %s", cq.Bytes(data), cq.Z(int64(size)), cq.Z(int64(red)), o),
-		Key:  fmt.Sprintf("encode:len=%d:size=%d:red=%d:data=%s", len(data), size, red, dataName),
-		Kind: kind, Nontrivial: true, Replay: rp})
+		Key: key, Kind: kind, Nontrivial: true, Replay: rp})
+	keep := append([]byte{}, data...)
+	s.Remember(key, o, rp, func() string { return encodeRaw(append([]byte{}, keep...), size, red) })
+	// large jobs explicitly with 1, 2 and 4 processors: the result must be the model-compared one
+	if size > 0 && len(data)*red >= 20000 {
+		for _, p := range []int{1, 2, 4} {
+			old := runtime.GOMAXPROCS(p)
+			cases.Begin(fmt.Sprintf("fragmentation.Encode under GOMAXPROCS=%d:%s", p, key), rp)
+			op := encodeRaw(append([]byte{}, keep...), size, red)
+			cases.End()
+			runtime.GOMAXPROCS(old)
+			procRuns++
+			if op != o {
+				rp2 := map[string]interface{}{"api": "runtime.GOMAXPROCS(p); fragmentation.Encode(data, fragmentSize, redundancy)", "gomaxprocs": p,
+					"data": fmt.Sprintf("%x", data), "fragmentSize": size, "redundancy": red}
+				s.Fail(cases.GoFail{Key: fmt.Sprintf("gomaxprocs=%d:%s", p, key), What: fmt.Sprintf("fragmentation.Encode returns other fragments with GOMAXPROCS=%d than with the default", p), Replay: rp2})
+				// and let the model / the specification judge that observation
+				s.Add(cases.Case{Term: fmt.Sprintf("CEncode %s %s %s %s", cq.Bytes(data), cq.Z(int64(size)), cq.Z(int64(red)), op),
+					Key: fmt.Sprintf("%s:gomaxprocs=%d", key, p), Kind: "gomaxprocs", Nontrivial: true, Replay: rp2})
+				break
+			}
+		}
+	}
 }
+
+var procRuns int
 
 func recoverCase(s *cases.Set, r *cq.RNG, m, size, red int, nKeep int, kind string) {
 	data := r.Bytes(m * size)
@@ -239,7 +278,7 @@ func memCase(s *cases.Set, r *cq.RNG, m, size, red, spare int) {
 		backing[i] = byte(0xA5 ^ i)
 	}
 	orig := append([]byte{}, backing...)
-	arg := backing[:n : n+spare]
+	arg := backing[: n : n+spare]
 	key := fmt.Sprintf("frags=%d:size=%d:red=%d:spare=%d:data=%s", m, size, red, spare, hexShort(orig[:n]))
 	rp := map[string]interface{}{"api": "fragmentation.Encode(buffer[:len(block)], fragmentSize, redundancy) with cap = len(block)+spare",
 		"block": fmt.Sprintf("%x", orig[:n]), "bytes_behind_block": fmt.Sprintf("%x", orig[n:]), "fragmentSize": size, "redundancy": red, "spare_capacity": spare}
@@ -466,6 +505,30 @@ func main() {
 		imageCase(s, r, 2+r.Intn(4), m, size, red)
 	}
 	s.Extra["memory_cases"] = "blocks passed as sub-slices with spare capacity {0, 1, size, red*size, more}; images encoded block by block; Go-side checks (go_fails)"
+
+	// ---- large jobs (work = len(data)*redundancy from 2^16 to 2^21), compared with the model like
+	// every other case, run under GOMAXPROCS 1/2/4, and remembered for the replays below ----
+	type big struct{ m, size, red int }
+	bigs := []big{{200, 48, 40}, {300, 64, 100}, {64, 16, 80}, {128, 8, 90}, {256, 4, 100}, {300, 2, 100}, {100, 11, 85}, {77, 3, 95}, {192, 5, 88}, {255, 1, 100}, {257, 2, 99}, {150, 7, 80}}
+	if thorough {
+		for i := 0; i < 60; i++ {
+			bigs = append(bigs, big{64 + r.Intn(237), 1 + r.Intn(64), 80 + r.Intn(21)})
+		}
+	}
+	for _, b := range bigs {
+		data := r.Bytes(b.m * b.size)
+		encodeCase(s, data, b.size, b.red, "large", hexShort(data))
+	}
+	s.Extra["gomaxprocs_runs"] = procRuns
+	s.Extra["gomaxprocs_rule"] = "every case with len(data)*redundancy >= 20000 repeated under runtime.GOMAXPROCS(1), (2), (4); result must equal the model-compared one"
+
+	// ---- every remembered call again: other order, on one P, and from 8 goroutines at once ----
+	s.ReplayRemembered(r.Intn, 1, nil)
+	rounds := 6
+	if thorough {
+		rounds = 12
+	}
+	s.ReplayConcurrently(8, rounds, 120*time.Second)
 
 	if err := s.Finish(); err != nil {
 		fmt.Fprintln(os.Stderr, err)
